@@ -149,6 +149,7 @@ SPEC = {
     'lean': ['C10', 'NatSemIO'],
     'relevant': relevant,
     'cases': cases,
+    'big': True,
     'stream': 'C10 planted-fault stream (incl. retry families: a cached failure evaluated again under another ㅅㄷ)',
     'rule': 'faults buried 1–4 levels deep in containers built by ㅁㄹ / ㄷㅂ / ㅅㅈ / ㅁㄷ / ㄷ / ㅂㅈ (so that intermediate containers are already strict) must be raised inside ㅅㄷ / ㄱㅅ; 52 strict operand positions (every built-in family, callables, argument position, callee, I/O constructors, '
             'module functions, nested / closure / returned-closure contexts) × random nested exception payloads: the '
